@@ -10,7 +10,7 @@ From CGV Require Import Base.PyBase Base.PyVal Gen.FragGen Dialect.DialectImpl F
      Frag.StripFacts Frag.FragProofs Frag.FragTextX Frag.FragProofsX Frag.FragStages Frag.FragSmall Frag.RingProofs
      Gen.SmilesGen Frag.SmilesParse Frag.SmilesSpec Frag.SmilesProofs Frag.SmilesIndex Frag.SmilesRelabel Frag.SmilesPerm
      Frag.Template Frag.TemplateProofs Frag.TemplateFinal Frag.TemplateGraph Frag.TemplateCompose Frag.SmilesReverse Frag.SmilesPermR
-     Frag.FragTextW Frag.FragProofsW Frag.SmilesReroot Frag.SmilesRewrite Frag.SmilesPermX Frag.SmilesPermG Frag.SmilesWf Frag.SmilesDescend Frag.TemplateChiral Frag.TemplateChiralProofs.
+     Frag.FragTextW Frag.FragProofsW Frag.SmilesReroot Frag.SmilesRewrite Frag.SmilesPermX Frag.SmilesPermG Frag.SmilesWf Frag.SmilesDescend Frag.SmilesTree Frag.TemplateChiral Frag.TemplateChiralProofs.
 From CGV Require Import Base.NxGraph Compose.CutModel Compose.CutSpecDefs.
 Local Open Scope nat_scope.
 Import ListNotations.
@@ -662,8 +662,8 @@ Proof. exact gswap_branches_text1. Qed.
     as a last branch, exchanges branch i with its right neighbours until it is last (the general exchange: any ring bonds,
     disjoint numbers), writes it as the tail and re-roots.  Every side condition is decided by computation; whenever a text
     and a permutation are returned, the two graphs are related by that permutation (both fail alike).  Partial: that
-    [descend_path] SUCCEEDS for every atom of every ring-free fragment is not proved (it does on the Example; it returns
-    [None] where a ring number is shared by two branches that would have to be exchanged) *)
+    [descend_path] succeeds on every ring-free fragment is C01_start_atom_any_tree below; with ring bonds it returns
+    [None] where a ring number is shared by two branches that would have to be exchanged *)
 Theorem C01_start_atom_any_partial : forall path w w' s, descend_path path w = Some (w', s) ->
   graphs_rel s (graph_of false w) (graph_of false w').
 Proof. exact descend_path_sound. Qed.
@@ -682,6 +682,28 @@ Example C01_start_atom_any_nonvacuous :
   | None => False
   end /\ descend 3 ds_w = None.
 Proof. exact descend_example. Qed.
+(** TOTALITY on ring-free fragments.  The writings of a ring-free fragment ("tree texts", Frag/SmilesTree.v): a tail is
+    empty or  [b] x G1 ... Gk T  (optional bond symbol, an atom, its branches, the rest), a branch is "(" U ")" with U a
+    non-empty tail, a tree text is  a G1 ... Gk T.  On a tree text every choice that exists can be taken — the next atom of a
+    non-empty tail ([None]), the first atom of branch i < k ([Some i]): these are exactly the neighbours of the first atom —
+    and the result is a tree text again; so every path of such choices ([in_range]) succeeds, ends in a tree text, and the
+    two graphs are related by the returned permutation: from the first atom every atom of the fragment is reached by walking
+    the tree, one bond per step (induction over the path).  Partial: that the ATOM INDEX reached by a path is the expected
+    one is not stated separately (it is the image of 0 under the inverse of the returned permutation) *)
+Theorem C01_start_atom_step_total : forall st w, tree_text w -> choice_ok st w = true ->
+  exists w1 s1, step_of st w = Some (w1, s1) /\ tree_text w1.
+Proof. exact step_total. Qed.
+Theorem C01_start_atom_any_tree : forall path w, tree_text w -> in_range path w ->
+  exists w' s, descend_path path w = Some (w', s) /\ tree_text w' /\ graphs_rel s (graph_of false w) (graph_of false w').
+Proof. exact descend_path_total. Qed.
+Theorem C01_descend_total : forall a gs T i, is_atomtok a = true -> groups gs -> tt T -> (i < length gs)%nat ->
+  exists w' s, descend i (a :: concat gs ++ T) = Some (w', s) /\ tree_text w'.
+Proof. exact descend_total. Qed.
+Theorem C01_reroot1_total : forall a gs T, is_atomtok a = true -> groups gs -> tt T -> T <> [] ->
+  exists w' m, reroot1 (a :: concat gs ++ T) = Some (w', m) /\ tree_text w'.
+Proof. exact reroot1_total. Qed.
+Example C01_start_atom_tree_nonvacuous : tree_text ds_w /\ in_range [None; Some 2; Some 1] ds_w.
+Proof. exact tree_example. Qed.
 (** the documented bond orders are the ones of the installed pysmiles *)
 Theorem C13_smiles_orders : forall b, smiles_bond_to_order_lookup [bchar b] = Ok (border b).
 Proof. exact smiles_order_bchar. Qed.
@@ -727,3 +749,4 @@ Print Assumptions C01_branch_order_anyrings_text_partial.
 Print Assumptions C01_start_atom_reroot_text.
 Print Assumptions C01_branch_order_anyrings_text.
 Print Assumptions C01_start_atom_any_partial.
+Print Assumptions C01_start_atom_any_tree.
